@@ -11,7 +11,7 @@
 From Coq Require Import Uint63 Floats Lia.
 From GL Require Import Common.Bytes Lua.Syntax Lua.Values Lua.Run Lua.LuaCases.
 From GL Require Import VMX.Machine VMX.Step VMX.VRun VMX.VmCases VMX.WfTie VMX.RunSafe.
-From GL Require VM.WfProto VM.WfFacts VMX.WfTieFacts VMX.RunSafeFacts VMX.HeapSafeFacts.
+From GL Require VM.WfProto VM.WfFacts VMX.WfTieFacts VMX.RunSafeFacts VMX.HeapSafeFacts VMX.DiscFacts.
 Open Scope Z_scope.
 
 Definition p_tfor : xproto := (XProto (w63 [872415234;134479872;134742017;2483028482;134479874;403177475;786432;2080901122;1677852673;1008471041;262151;2416444416;1677852667;2617769984;1;403439620;68157953;1310722;135790597;2081686530;2081685505;2081161728;2214854658;2214592513]%uint63) [VNum 0x1.4p+3%float; VNum 0x1.4p+4%float; VNum 0%float; VStr [112;97;105;114;115]; VStr [101;109;105;116]; VNum 0x1p+0%float] [(XProto (w63 [2617507840;0;335544320;2214854658;2214592513]%uint63) [] [(XProto (w63 [335544320;335806465;1006633472;2214592514;2214592513]%uint63) [] [] 2 0 0 2 [4;4;4;4;4] 4)] 1 1 0 2 [4;4;4;4;4] 4)] 0 0 7 8 [1;1;1;1;2;3;3;3;3;3;3;3;3;4;4;5;5;5;5;5;5;5;6;7] 0).
@@ -63,3 +63,16 @@ Qed.
 (* a state whose current frame is the one being executed *)
 Example tfor_state : top_pc (with_stack (init_vstate p_tfor) [cf_tfor]) = Some (fr_pc cf_tfor).
 Proof. reflexivity. Qed.
+
+(* the frame-stack discipline (DiscFacts): the initial state has no resumer anywhere, and the run of
+   p_tfor on the machine with coroutine resumption cut off is not cut off - so it is the run of the
+   full machine, and mainLoop_nc_disc applies to every re-entrance in it (pairs' iterator is called
+   through callR by OP_TFORLOOP) *)
+Example tfor_par_ok : par_ok (init_vstate p_tfor).
+Proof. apply DiscFacts.init_par_ok. Qed.
+
+Example tfor_not_cut : run_proto_nc vm_fuel p_tfor <> VFinFuel.
+Proof. vm_compute. discriminate. Qed.
+
+Example tfor_nc_is_full : run_proto vm_fuel p_tfor = run_proto_nc vm_fuel p_tfor.
+Proof. apply DiscFacts.run_proto_nc_full_lemma. exact tfor_not_cut. Qed.
